@@ -13,7 +13,12 @@ of connectors connected element-wise (each scalar graph lifted to N parallel cop
 clause orders, shifted pairings, whole-array clauses, free enumeration over array elements, 2-D);
 connect clauses inside component classes (a connector that is outside for the inner clause and
 inside for the outer one), also with arrays; other clause forms (for-loops, slices, parameter
-subscripts, whole-array mixed with element clauses).
+subscripts, whole-array mixed with element clauses); components and the top class carrying linear
+equations of their own over connector members (flow alone on a left-hand side, on the right, in
+sums, defined by another flow, potentials) while some of their connectors stay unconnected; models
+with two connector classes at once (same short name in two packages with more / disjoint / swapped
+flow-potential / identical members, local connector classes, inherited members, replaceable
+connector redeclared per instance, input/output/parameter/constant members).
 """
 import itertools
 import sys
@@ -192,12 +197,74 @@ def check_general(col, fam, model, extra=None):
     col.bump("equations", len(impl))
 
 
+# ---- rich family member: components with equations of their own / several connector classes -------------
+def _names(node, acc):
+    """Names of all variables an equation refers to."""
+    if isinstance(node, (ast.ComponentRef, ast.Symbol)):
+        acc.add(node.name)
+    elif isinstance(node, ast.Equation):
+        _names(node.left, acc), _names(node.right, acc)
+    elif isinstance(node, ast.Expression):
+        for o in node.operands:
+            _names(o, acc)
+    return acc
+
+
+def check_rich(col, fam, desc, cid):
+    text, top = desc["text"], desc["top"]
+    case = f"{fam}:{cid}"
+    try:
+        flat = pipeline.flat_reference(text, top)
+    except Exception as e:
+        col.violation(case + ":raises:" + type(e).__name__, f"flatten raises {type(e).__name__}: {str(e)[:100]}", {"model_text": text})
+        return
+    fc = flat.classes[top]
+    if any(_has_connect(eq) for eq in fc.equations):
+        col.violation(case + ":unexpanded", "a connect clause survived flattening", {"model_text": text})
+        return
+    # structural: exactly the members of each connector's OWN class plus the declared variables are flat variables,
+    # and no equation mentions anything else
+    want, have = connect_ref.rich_expected_symbols(desc), set(fc.symbols)
+    if want != have:
+        col.violation(case + ":variables", f"flat variables differ from the declared ones: {sorted(want ^ have)[:6]}", {"model_text": text})
+        return
+    used = set()
+    for eq in fc.equations:
+        _names(eq, used)
+    if not used <= have:
+        col.violation(case + ":undeclared", f"flat equations mention variables that do not exist: {sorted(used - have)[:6]}", {"model_text": text})
+        return
+    ref = Ref(flat, top)
+    impl = [r == 0 for eq in fc.equations for r in ref.residual(eq)]
+    spec = connect_ref.rich_reference_equations(desc, z3.Real)
+    T = z3.BoolVal(True)
+    I, S = z3.And(impl) if impl else T, z3.And(spec) if spec else T
+    for tag, q in (("impl-not-spec", [I, z3.Not(S)]), ("spec-not-impl", [S, z3.Not(I)])):
+        r, mod = equiv.check(col, q, 10000)
+        if r == "sat":
+            pt = equiv.point_from_model(mod, impl + spec)
+            iv = [bool(equiv.z3eval(e, pipeline._Default(pt))) for e in impl]
+            sv = [bool(equiv.z3eval(e, pipeline._Default(pt))) for e in spec]
+            if all(iv) != all(sv):
+                col.violation(f"{case}:{tag}", "flattened equations and (model equations + Modelica connection-set semantics) have different solutions",
+                              {"model_text": text, "point": pt, "flat_equations_hold": iv, "reference_equations_hold": sv})
+            else:
+                col.note_inconclusive(f"{case}:{tag} sat did not replay")
+        elif r == "unknown":
+            col.note_inconclusive(f"{case}:{tag} unknown")
+    col.bump("programs")
+    col.bump("programs_" + fam.split("[")[0])
+    col.bump("equations", len(impl))
+
+
 def work(chunk):
     col = Collector()
     for args in chunk:
         try:
             if args[0] == "G":
                 check_general(col, *args[1:])
+            elif args[0] == "R":
+                check_rich(col, *args[1:])
             else:
                 check(col, *args)
         except EncodingGap as g:
@@ -207,7 +274,9 @@ def work(chunk):
             col.harness_error(f"{str(args)[:600]}: " + traceback.format_exc()[-1200:])
     if chunk:
         a = chunk[0]
-        if a[0] == "G":
+        if a[0] == "R":
+            col.sample({"family": a[1], "text": a[2]["text"]}, 1)
+        elif a[0] == "G":
             ex = a[3] if len(a) > 3 and a[3] else {}
             col.sample({"family": a[1], "text": connect_ref.render(a[2], ex.get("decls", ""), ex.get("raw"))}, 1)
         else:
@@ -401,6 +470,66 @@ def general_programs(thorough):
     return out + form_programs()
 
 
+# equations a component class Comp (connectors p, n; variable x) may carry itself, names local to Comp
+COMP_EQUATIONS = {
+    "flow-lhs": ["p.i = x"],                                  # flow variable alone on the left-hand side
+    "flow-rhs": ["x = p.i"],
+    "neg-flow-lhs": ["-p.i = x"],
+    "zero-lhs": ["0 = p.i - x"],
+    "flow-const": ["p.i = 2*x + 1"],
+    "flow-flow": ["p.i = n.i"],                               # one flow defined by the other
+    "both-flows": ["p.i = x", "n.i = x"],
+    "two-port": ["p.i = x", "n.i = -x", "p.v - n.v = x"],     # resistor-like
+    "kirchhoff": ["p.i + n.i = 0", "p.v = n.v"],              # flows only inside a sum
+    "pot-lhs": ["p.v = x"],
+    "pot-flow": ["p.v = p.i"],
+}
+# equations of the top class M (variable y) over a top-level connector / a component's connector, flat names
+TOP_EQUATIONS = {
+    "top:outside-flow-lhs": (["P.i = y"], False),
+    "top:outside-flow-rhs": (["y = Q.i"], True),
+    "top:inside-flow-lhs": (["c.p.i = y", "a.p.i = y"], False),
+    "top:flow-sum": (["P.i + c.n.i = y"], True),
+    "top+comp": (["Q.i = y"], False),                        # together with the component equation p.i = x
+}
+
+
+def rich_programs(thorough):
+    out = []
+    R = lambda fam, desc: out.append(("R", fam, desc, ";".join(f"{a}~{b}" for a, b in desc["clauses"])))
+    # (a) components / top class with linear equations of their own; c.*, Q (and more) stay unconnected
+    conns = ["a.p", "a.n", "b.p", "P"]
+    graphs = list(sequences(conns, 2 if thorough else 1)) + ([] if thorough else list(sequences(conns, 2, ordered=False, minlen=2)))
+    if thorough:
+        graphs += list(sequences(conns, 3, ordered=False, minlen=3))
+    for name, eqs in COMP_EQUATIONS.items():
+        for g in graphs:
+            R(f"eqs[{name}]", connect_ref.equations_model(eqs, [], g))
+        if thorough and name in ("flow-lhs", "two-port"):
+            for g in sequences(conns + ["c.p", "Q"], 2, minlen=2):
+                if any(c in ("c.p", "Q") for cl in g for c in cl):
+                    R(f"eqs[{name}]", connect_ref.equations_model(eqs, [], g))
+    for name, (eqs, first) in TOP_EQUATIONS.items():
+        for g in graphs:
+            R(f"eqs[{name}]", connect_ref.equations_model(["p.i = x"] if name == "top+comp" else [], eqs, g, top_first=first))
+    for g in sequences(conns, 2 if thorough else 1):
+        R("eqs[flow-lhs,k2m2]", connect_ref.equations_model(["p.i1 = x"], ["P.i2 = y"], g, 2, 2))
+    # (b) two connector classes in one model; every clause joins connectors of one class, all orders of the classes
+    X, Y = connect_ref.CLASS_CONNECTORS
+    pairs = lambda ordered: [(a, b) for cs in (X, Y) for i, a in enumerate(cs) for j, b in enumerate(cs) if (i != j if ordered else i < j)]
+    for layout in connect_ref.CLASS_LAYOUTS:
+        seqs = [[]] + [[p] for p in pairs(True)]
+        seqs += [list(s) for s in itertools.product(pairs(thorough), repeat=2)]
+        if thorough:
+            seqs += [list(s) for s in itertools.product(pairs(False), repeat=3)]
+        for n, seq in enumerate(seqs):
+            R(f"classes[{layout}]", connect_ref.classes_model(layout, seq, y_first=thorough and n % 2 == 1))
+        if not thorough:
+            for seq in ([("y1.p", "y2.p"), ("x1.p", "x2.p")], [("x1.p", "tx"), ("ty", "y1.p"), ("x2.p", "x1.p")]):
+                R(f"classes[{layout},y-first]", connect_ref.classes_model(layout, seq, y_first=True))
+    return out
+
+
 def main():
     args = std_args(PROP)
     rep = Report(PROP, args.tier, "translation_validation", args.seed)
@@ -434,8 +563,10 @@ def main():
     n_self = len(progs) - n_scalar
     named = named_programs(thorough)
     general = general_programs(thorough)
-    progs += named + general
-    rep.coverage.update({"programs_scalar_graphs": n_scalar, "programs_self_connections": n_self, "programs_naming_schemes": len(named)})
+    rich = rich_programs(thorough)
+    progs += named + general + rich
+    rep.coverage.update({"programs_scalar_graphs": n_scalar, "programs_self_connections": n_self, "programs_naming_schemes": len(named),
+                         "programs_own_equations_and_connector_classes": len(rich)})
     # interleave so that every chunk has a mix of cheap and expensive members
     progs = [p for i in range(args.jobs * 8) for p in progs[i::args.jobs * 8]]
     n = max(1, len(progs) // (args.jobs * 8))
@@ -470,12 +601,26 @@ def main():
         "k=m=2 and with an array-valued flow member; (6) every non-empty <=2-clause sequence over the elements {n[1].p, n[2].p, t[1], t[2], x.p}, <=1 clause over s[2,2] and u, "
         "and the 2-D array fully connected by 4 clauses; (7) connect clauses inside component classes (Comp with connectors p, n and sub-component s.q: <=1 inner clause x "
         "(<=1 ordered or 2 unordered outer clauses over {a.p, a.n, b.p, P}), 2 unordered inner clauses x <=1 outer), the same with Comp a[2] and with an array connector Pin p[2] "
-        "inside Comp; (8) 11 hand-listed clause forms: whole-array clause mixed with element clauses, for-equation, slice, parameter subscript. "
+        "inside Comp; (8) 11 hand-listed clause forms: whole-array clause mixed with element clauses, for-equation, slice, parameter subscript; "
+        "(9) models with equations of their own: Comp (connectors p, n, variable x) carrying one of 11 linear equation sets (p.i = x, x = p.i, -p.i = x, 0 = p.i - x, p.i = 2*x + 1, "
+        "p.i = n.i, p.i = x & n.i = x, resistor-like two-port, p.i + n.i = 0 & p.v = n.v, p.v = x, p.v = p.i) or the top class carrying one of 5 (P.i = y, y = Q.i, c.p.i = y & a.p.i = y, "
+        "P.i + c.n.i = y, Q.i = y together with p.i = x; written before or after the connect clauses), in M with components a, b, c, top connectors P, Q: every <=1-clause ordered and every "
+        "unordered 2-clause sequence over {a.p, a.n, b.p, P} (c.p, c.n, b.n, Q always unconnected), plus k=m=2 with p.i1 = x, P.i2 = y x <=1 clause; the reference is the model's own "
+        "equations (read from the same strings) and the connection-set equations; "
+        "(10) two connector classes X, Y in one model (x1.p, x2.p, tx of X; y1.p, y2.p, ty of Y) in 9 layouts: same short name Pin in two packages with Y having more members / "
+        "disjoint members / flow and potential swapped / identical members, two differently named classes, classes declared locally in two models under one name, Ext extends Base, "
+        "replaceable connector redeclared in the Y instances only, a class with input/output/parameter/constant members; each with every ordered <=1-clause sequence, every 2-clause "
+        "sequence of unordered pairs (both class orders) and 2 sequences with the Y instances declared first; structural side: flat variables are exactly the members of each "
+        "connector's own class and no flat equation mentions an undeclared variable. "
         "thorough: (1) <=4 clauses over 4 connectors, <=3 over 5, <=3 with k=m=2, <=2 over 8 connectors; (2) self-connections in <=3 clauses; (3) ordered 2-clause sequences over 6 connectors "
         "per scheme; (4) <=3 clauses, also mixed scalar/array members with k=m=2; (5) <=3-clause graphs x 6 renderings (also descending copy order), 2-clause graphs with N=3; "
-        "(6) <=2 ordered and 3 unordered clauses over 6 array elements, <=2 over the 2-D array; (7) <=2 inner x <=2 outer ordered clauses, <=2 outer over Comp a[2], <=2 inner over Pin p[2]. "
+        "(6) <=2 ordered and 3 unordered clauses over 6 array elements, <=2 over the 2-D array; (7) <=2 inner x <=2 outer ordered clauses, <=2 outer over Comp a[2], <=2 inner over Pin p[2]; "
+        "(9) every ordered <=2-clause and unordered 3-clause sequence per equation set, for p.i = x and the two-port also the ordered 2-clause sequences over 6 connectors that touch c.p or Q; "
+        "(10) ordered <=2-clause and unordered 3-clause sequences per layout, alternating the declaration order of the X and Y instances. "
         "All variable values unbounded reals in every family")
-    rep.assumptions += ["components carry no equations of their own, so the flat equations are exactly the connection equations",
+    rep.assumptions += ["in families (1)-(8) and (10) components carry no equations of their own, so the flat equations are exactly the connection equations; in family (9) the "
+                        "reference is the conjunction of the model's own linear equations (instantiated per component from the strings rendered into the text) and the connection equations",
+                        "input/output members of a connector are equated like potentials; parameter and constant members produce no equation",
                         "'every flow variable that appears in no connection is zero' is applied to inside and outside connectors alike, as the statement says; "
                         "a connector that is connected only by a clause of its own class (as an outside connector) counts as appearing in a connection",
                         "a connect clause between whole arrays, a for-equation, a slice or a parameter subscript stands for the element-wise scalar clauses (Modelica spec 9.1)",
